@@ -43,6 +43,12 @@ fn replay(run: &Run, v: &Value) -> i32 {
                 let key = format!("S5 kind {} n {} ", case["op_kind"].as_u64().unwrap_or(0), case["n"].as_u64().unwrap_or(0));
                 msgs.extend(s.viol.iter().filter(|v| v.key.starts_with(&key)).map(|v| v.what.clone()));
             }
+            Some("cycles") | Some("total") => {
+                let mut s = Sink::new();
+                s6(&mut s, true);
+                let key = if case["kind"] == "cycles" { format!("S6 cycles {} ", case["n"].as_u64().unwrap_or(0)) } else { format!("S6 total {} frag {} ", case["total"].as_u64().unwrap_or(0), case["frag"].as_u64().unwrap_or(0)) };
+                msgs.extend(s.viol.iter().filter(|v| v.key.starts_with(&key)).map(|v| v.what.clone()));
+            }
             Some("oversize") => {
                 let mut s = Sink::new();
                 s4(&mut s);
@@ -234,6 +240,10 @@ fn main() {
     let (h5, st5) = s5(&mut sink, thorough);
     transitions += st5;
     per.push(json!({"scenario":"S5 repeated operations","histories":h5,"steps":st5}));
+    // S6: up to 70000 completed messages in a row on one parser; messages of exactly 2^16 +- 1, 2^17 +- 1, 3 * 2^16 bytes
+    let (h6, st6) = s6(&mut sink, thorough);
+    transitions += st6;
+    per.push(json!({"scenario":"S6 cycles and 2^16-sized messages","histories":h6,"steps":st6}));
 
     if sink.viol.is_empty() && (states < 500 || singles < 3) {
         machinery_failure(run.prop, &format!("vacuous exploration: {} states, {} single-message payloads", states, singles));
@@ -252,7 +262,7 @@ fn main() {
     }
     cov.insert("exhaustive".into(), json!(all_complete));
     cov.insert("rule".into(), json!(
-        "states are canonical (buffer bytes, current type, reference accumulator, reference type, scenario cursor); every transition executes the real parse_record / parse_record_nocopy / reset on a parser rebuilt by replaying the witness history, and is compared with the reference accumulate-then-parse step (result value incl. slice provenance, defrag_in_progress, buffer, state-unchanged-on-refusal, size bound). S0 is depth-bounded (bound reported); S1 runs to fixpoint; S2 is a set of deterministic 10 MiB histories; S3 replays fixed split histories under every one of the 65536 record-layer versions (on all records and on each single record); S4 feeds hand-built first fragments of about 10 MiB; S5 repeats one operation (empty / 1-byte fragment, foreign record, refused nocopy, empty application data) up to 70000 times inside a defragmentation"));
+        "states are canonical (buffer bytes, current type, reference accumulator, reference type, scenario cursor); every transition executes the real parse_record / parse_record_nocopy / reset on a parser rebuilt by replaying the witness history, and is compared with the reference accumulate-then-parse step (result value incl. slice provenance, defrag_in_progress, buffer, state-unchanged-on-refusal, size bound). S0 is depth-bounded (bound reported); S1 runs to fixpoint; S2 is a set of deterministic 10 MiB histories; S3 replays fixed split histories under every one of the 65536 record-layer versions (on all records and on each single record); S4 feeds hand-built first fragments of about 10 MiB; S6 completes up to 70000 two-fragment messages in a row and reassembles messages of exactly 2^16 +- 1 / 2^17 +- 1 / 3 * 2^16 bytes; S5 repeats one operation (empty / 1-byte fragment, foreign record, refused nocopy, empty application data) up to 70000 times inside a defragmentation"));
     // the same check against the crate built with all cargo features (std, serialize, unstable)
     let mut sink = sink;
     run.all_features_variant(&mut sink);
